@@ -212,6 +212,13 @@ func deriveOverwritePrograms(rng *kc.Rng, q *big.Int, src func(i int) []byte, wi
 			p.stmts = append(p.stmts, stmt{dst: "s0", op: "const", lit: k1}, stmt{dst: "s1", op: "const", lit: k2}, lit(0), lit(1), lit(2))
 			p.stmts = append(p.stmts, d...)
 			p.stmts = append(p.stmts, o...)
+			// ... and whatever was overwritten is then used again as an operand (a value that remembers something
+			// about its previous contents - a cached table, a lazily normalised form - shows up here)
+			uses := func(x string) []stmt {
+				return []stmt{{dst: "p4", op: "mul", args: []string{"s1", x}}, {dst: "p5", op: "add", args: []string{x, "p2"}},
+					{dst: "p6", op: "sub", args: []string{"p2", x}}, {dst: "p7", op: "neg", args: []string{x}}, {dst: "p8", op: "mul", args: []string{"s0", x}}}
+			}
+			p.stmts = append(p.stmts, uses("p1")...)
 			// and the mirror image: overwrite the source, the derived value must not change
 			out = append(out, p)
 			var m prog
@@ -228,6 +235,8 @@ func deriveOverwritePrograms(rng *kc.Rng, q *big.Int, src func(i int) []byte, wi
 				}
 				m.stmts = append(m.stmts, st2)
 			}
+			m.stmts = append(m.stmts, uses("p0")...)
+			m.stmts = append(m.stmts, uses("p1")...)
 			out = append(out, m)
 		}
 	}
